@@ -263,6 +263,16 @@ func (pe *peer) interrogate(p *syncer.Proof, ri reqInfo, kind string, ent *sched
 	}
 	c.count("soundness/accepted_writelog_pairs_checked", int64(len(wl)))
 
+	// The accepted subtree must be a part of the trusted tree: every node in it
+	// carries a hash; the node of the trusted tree with that hash must have
+	// exactly this content (kind, key/value, child hashes). Anything else means
+	// the verifier vouches, under a true hash, for content it did not hash.
+	if what := pe.c.forgedNode(subtree, trusted); what != "" {
+		pe.onViolation("c04/soundness/accepted-forged-subtree/"+kind,
+			fmt.Sprintf("corrupted proof (%s) is accepted by VerifyProof against the trusted hash but its subtree is not part of the trusted tree: %s", kind, what), *ent, p, "")
+		return true
+	}
+
 	// What does the accepted subtree tell a caller of the verifier API that
 	// holds only the trusted hash? Interpret it with the monitor's own
 	// partial-tree lookup: whatever it DETERMINES (value or absence) about a
@@ -373,4 +383,61 @@ func (pe *peer) SyncGetPrefixes(_ context.Context, req *syncer.GetPrefixesReques
 
 func (pe *peer) SyncIterate(_ context.Context, req *syncer.IterateRequest) (*syncer.ProofResponse, error) {
 	return pe.respond(reqInfo{op: "iterate", key: req.Key, limit: req.Prefetch, position: req.Tree.Position, version: req.ProofVersion})
+}
+
+// forgedNode compares a verified subtree with the trusted tree node by node.
+// It returns a description of the first difference, or "".
+func (c *caseCtx) forgedNode(sub *node.Pointer, trusted hash.Hash) string {
+	if sub == nil {
+		if trusted.IsEmpty() {
+			return ""
+		}
+		return "the verifier returns an empty tree for the non-empty trusted hash " + hshort(trusted)
+	}
+	if !sub.Hash.Equal(&trusted) {
+		return fmt.Sprintf("the subtree root has hash %s, the trusted hash is %s", hshort(sub.Hash), hshort(trusted))
+	}
+	var bad string
+	var walk func(p *node.Pointer)
+	same := func(p *node.Pointer, h hash.Hash) bool {
+		if p == nil {
+			return h.IsEmpty()
+		}
+		return p.Hash.Equal(&h)
+	}
+	walk = func(p *node.Pointer) {
+		if bad != "" || p == nil || p.Node == nil {
+			return
+		}
+		ni := c.full[p.Hash]
+		if ni == nil {
+			bad = "node " + hshort(p.Hash) + " is not a node of the trusted tree"
+			return
+		}
+		switch n := p.Node.(type) {
+		case *node.LeafNode:
+			if !ni.leaf || !bytes.Equal(n.Key, ni.key) || !bytes.Equal(n.Value, c.M.m[string(ni.key)]) {
+				bad = fmt.Sprintf("leaf %s carries key %x value %x, the trusted tree has key %x there", hshort(p.Hash), []byte(n.Key), trunc(n.Value), ni.key)
+			}
+		case *node.InternalNode:
+			switch {
+			case ni.leaf:
+				bad = "internal node under the hash of leaf " + hshort(p.Hash)
+			case !same(n.LeafNode, ni.childV1[0]):
+				bad = fmt.Sprintf("node %s (bit depth %d): leaf pointer %s, trusted tree has %s", hshort(p.Hash), ni.depth, hshort(ptrHash(n.LeafNode)), hshort(ni.childV1[0]))
+			case !same(n.Left, ni.childV1[1]):
+				bad = fmt.Sprintf("node %s (bit depth %d): left child %s, trusted tree has %s", hshort(p.Hash), ni.depth, hshort(ptrHash(n.Left)), hshort(ni.childV1[1]))
+			case !same(n.Right, ni.childV1[2]):
+				bad = fmt.Sprintf("node %s (bit depth %d): right child %s, trusted tree has %s", hshort(p.Hash), ni.depth, hshort(ptrHash(n.Right)), hshort(ni.childV1[2]))
+			case n.LabelBitLength != ni.internal.LabelBitLength || !bytes.Equal(n.Label, ni.internal.Label):
+				bad = "node " + hshort(p.Hash) + " carries a different label"
+			default:
+				walk(n.LeafNode)
+				walk(n.Left)
+				walk(n.Right)
+			}
+		}
+	}
+	walk(sub)
+	return bad
 }
